@@ -99,6 +99,15 @@ CHECKS = {
     note='Trusted: clang lowering (validated per run incl. the reference run), irsym (OpenMP sequential model), exact polynomial normal form in p, z3. The narrow phase runs as is (C05/C07 are about it).',
     technique='symbolic execution of LLVM IR (whole contact-model run) with recorded hand-overs; z3 (linear real arithmetic + to_int); native differential replay against a single-voxel grid',
     design='3/C06'),
+ 'C09': dict(
+    level='other',
+    text=('Kernels only (end-to-end divide_cell with its clock-seeded Poisson sampling, Delaunay triangulation and remeshing is not encoded): from the LLVM IR in exact reals, z3 decides per path (K1) find_edge_plane_intersection: a returned point lies on the plane and on the segment, '
+          'and "no intersection" is never returned for end points strictly on opposite sides; (K2) map_points_to_xy_plane + map_points_to_division_plane as divide_cell composes them, for every unit division axis except (0,0,-1) (both branches: axis = +z and the quaternion branch): '
+          'rotation orthonormal and axis -> +z, interface flattened isometrically, round trip exact, points created at z = 0 return into the division plane through the interface centroid. 2-3 (4 thorough) interface points, 1 (2) new points. '
+          'Daughter validity, volumes, the no-throw guarantee and success-or-unchanged of the whole pipeline are NOT covered; population bookkeeping of cell_divider::run is covered by C08 with divide_cell replaced by its contract.'),
+    note='Trusted: clang lowering (validated per run), irsym, z3 NRA + polynomial normaliser. Three extra distance identities for three interface points stay undecided within the quick time limit (non-core; implied by the proved orthonormality and round trip).',
+    technique='symbolic execution of LLVM IR; z3 nonlinear real arithmetic with sqrt definitions (polynomial normaliser first); native replay',
+    design='3/C09'),
  'C14': dict(
     level='other',
     text=('Whole iterations of the real solver (constructor + run_iteration, contact models 0/1/2, dynamic models 0/1) run from the LLVM IR on five small tissues whose input coordinates are concrete + t with t a symbolic real vector, '
